@@ -150,6 +150,12 @@ class Check:
                 chunks[node["path"]] = {"cycle": False, "sizes": [1 << 30]}
         world = {"nodes": nodes}
         _, plan = gen.gen_env(rng, world)
+        files_ = [n["path"] for n in nodes if n["type"] == "file"]
+        if len(files_) >= 2 and rng.random() < 0.25:
+            # files with several hard links whose inode numbers coincide across devices (content must never be shared by number)
+            plan["stat"] = {}
+            for i, f in enumerate(files_):
+                plan["stat"][f] = {"ino": 4242 + (i // 2 if rng.random() < 0.3 else 0), "dev": 700 + i, "nlink": rng.choice([2, 3])}
         cols = rng.sample(CONTENT_COLS, rng.choice([1, 2, 3, 6]))
         if rng.random() < 0.6:
             cols.append("contains('%s')" % needle)
